@@ -29,6 +29,14 @@ def main():
         if replay:
             return mod.replay(ck, json.load(open(replay, encoding="utf-8")))
         mod.run(ck)
+    except lib.HangError as e:
+        case = {k: v for k, v in e.case.items() if not k.startswith("_")}
+        lib.log("HANG: no result within %d s on case %s" % (e.seconds, json.dumps(case)[:400]))
+        ck.coverage["hang"] = {"seconds": e.seconds, "case": case}
+        ck.violation({"property": prop, "kind": "direct",
+                      "what": "the crate did not return within %d s on this input: neither a rule, an error, a verdict nor "
+                              "a panic (the model is total: it returns on every input)" % e.seconds,
+                      "rule": case.get("rule", case.get("text", "")), "replay_case": case})
     except lib.BuildError as e:
         # the machinery itself could not run: that is a broken check, reported as such
         lib.log("BUILD ERROR: %s\n%s" % (e.what, e.output[-3000:]))
